@@ -9,6 +9,7 @@
 package gocql
 
 import (
+	"net"
 	"bytes"
 	"encoding/hex"
 	"fmt"
@@ -385,6 +386,33 @@ func TestVxC05Unmarshal(t *testing.T) {
 				targets = append(targets, reflect.TypeOf(vxUnexportedDest{}))
 				k.Class("udt into a struct with unexported fields of the same names")
 			}
+			if c.Type.Kind == cqlspec.Tuple {
+				// application types that cannot hold the tuple: a struct with unexported fields, too few scan targets
+				targets = append(targets, reflect.TypeOf(vxUnexportedTuple{}))
+				short := make([]interface{}, len(c.Type.Elems)/2)
+				for i := range short {
+					short[i] = new(interface{})
+				}
+				if _, pan := vxSafeUnmarshal(info, append([]byte{}, data...), short); pan != nil {
+					return fmt.Errorf("Unmarshal(%v, %x, []interface{} of %d targets) panicked: %v", c.Type, data, len(short), pan)
+				}
+				if pan := vxCatchPanic(func() { Marshal(info, vxUnexportedTuple{}) }); pan != nil {
+					return fmt.Errorf("Marshal(%v, struct with unexported fields) panicked: %v", c.Type, pan)
+				}
+				k.Class("tuple into / from Go values that cannot hold it")
+			}
+			if c.Type.Kind == cqlspec.Inet {
+				// a net.IP of any length: refused or written as the 4 / 16 address bytes, never as something else
+				ip := net.IP(append([]byte{}, data...))
+				var out []byte
+				var merr error
+				if pan := vxCatchPanic(func() { out, merr = Marshal(info, ip) }); pan != nil {
+					return fmt.Errorf("Marshal(inet, net.IP of %d bytes) panicked: %v", len(ip), pan)
+				}
+				if merr == nil && len(ip) != 0 && len(out) != 4 && len(out) != 16 {
+					return fmt.Errorf("Marshal(inet, net.IP %x of %d bytes) = %x without an error", []byte(ip), len(ip), out)
+				}
+			}
 			for _, tt := range targets {
 				var pan interface{}
 				alloc, over := vxMeasureOver(vxAllocBound(len(data)), func() {
@@ -400,6 +428,18 @@ func TestVxC05Unmarshal(t *testing.T) {
 			return nil
 		},
 	})
+}
+
+type vxUnexportedTuple struct {
+	a int
+	B string
+	c []byte
+}
+
+func vxCatchPanic(f func()) (pan interface{}) {
+	defer func() { pan = recover() }()
+	f()
+	return nil
 }
 
 type vxUnexportedDest struct {
